@@ -410,17 +410,48 @@ func runPDF(c *fw.Ctx, dir string, i int) {
 	if !c.Want(id) {
 		return
 	}
-	r := c.Rand("pdf", i)
-	d := genDoc(r, genOpts{})
-	rr := c.Rand("pdf", i, "render")
-	per, data := render(d, rr)
-	path := filepath.Join(dir, fmt.Sprintf("d%06d.pdf", i))
+	d := genDoc(c.Rand("pdf", i), genOpts{})
+	reqs := genRequests(c.Rand("pdf", i, "req"), d, 5)
+	runDoc(c, dir, id, fmt.Sprintf("d%06d.pdf", i), d, func() *rand.Rand { return c.Rand("pdf", i, "render") }, reqs)
+}
+
+// runWitness runs the fixed witness of the open finding
+// C11-layout-reflow-after-filter on every run.
+func runWitness(c *fw.Ctx, dir string) {
+	id := "witness:reflow"
+	if !c.Want(id) {
+		return
+	}
+	d := &docSpec{NPages: 2, W: []float64{595, 595}, H: []float64{842, 842}, Features: map[string]bool{"witness": true}, Total: 89}
+	hdr, ftr := "annual figure qwitzaaaa 1992", "stone violet qwitzaaab harbour"
+	for p := 0; p < 2; p++ {
+		d.Units = append(d.Units,
+			unit{Page: p, Role: "hdr-run", Band: bandTop, X: 372.6, Y: 784, Size: 11, Text: hdr, Series: "hdrA"},
+			unit{Page: p, Role: "ftr-run", Band: bandBottom, X: 72, Y: 52, Size: 11, Text: ftr, Series: "ftrA"})
+	}
+	d.Units = append(d.Units,
+		unit{Page: 0, Role: "pagenum", Band: bandTop, X: 494.1, Y: 812, Size: 8, Text: "88 of 89", Series: "pn"},
+		unit{Page: 1, Role: "pagenum", Band: bandTop, X: 72, Y: 812, Size: 8, Text: "89 of 89", Series: "pn"},
+		unit{Page: 0, Role: "margin-unique", Band: bandTop, X: 258.2, Y: 798, Size: 9, Text: "window qwitzaaac"},
+		unit{Page: 0, Role: "margin-unique", Band: bandBottom, X: 460.3, Y: 24, Size: 8, Text: "qwitzaaad result"},
+		unit{Page: 0, Role: "body-numeric", Band: bandBody, X: 72, Y: 128, Size: 12, Text: "1512"},
+		unit{Page: 0, Role: "body-numeric", Band: bandBody, X: 72, Y: 100, Size: 12, Text: "1494"},
+		unit{Page: 1, Role: "body-numeric", Band: bandBody, X: 72, Y: 730, Size: 12, Text: "1494"})
+	classify(d)
+	reqs := []request{{Sel: []int{1}, SelHow: "pages-first", Mode: "F", API: "Text", TM: "join"}}
+	runDoc(c, dir, id, "witness-reflow.pdf", d, func() *rand.Rand { return rand.New(rand.NewSource(1)) }, reqs)
+}
+
+// runDoc evaluates one document: the direct detector and the given facade requests.
+func runDoc(c *fw.Ctx, dir, id, file string, d *docSpec, renderSeed func() *rand.Rand, reqs []request) {
+	per, data := render(d, renderSeed())
+	path := filepath.Join(dir, file)
 	if err := os.WriteFile(path, data, 0o644); err != nil {
 		c.Inconclusive("cannot write scratch file: " + err.Error())
 		return
 	}
 	defer os.Remove(path)
-	pc := &pdfCase{id: id, d: d, per: per, path: path, renderSeed: func() *rand.Rand { return c.Rand("pdf", i, "render") }}
+	pc := &pdfCase{id: id, d: d, per: per, path: path, renderSeed: renderSeed}
 	defer func() {
 		if pc.reducedPath != "" {
 			os.Remove(pc.reducedPath)
@@ -430,7 +461,6 @@ func runPDF(c *fw.Ctx, dir string, i int) {
 		fmt.Fprintln(os.Stderr, d.describe())
 		os.WriteFile("/tmp/c11-debug.pdf", data, 0o644)
 	}
-	reqs := genRequests(c.Rand("pdf", i, "req"), d, 5)
 	c.Case(docHash(d)+fmt.Sprint(reqs), d.nontrivial())
 	for _, f := range d.featureList() {
 		c.Seen("feature", f)
@@ -511,6 +541,7 @@ func Run(c *fw.Ctx) {
 	os.MkdirAll(dir, 0o755)
 	n := c.N(2500, 40000)
 	c.Parallel(n, func(i int) { runPDF(c, dir, i) })
+	runWitness(c, dir)
 	runOffice(c, dir)
 
 	if c.Only == "" {
